@@ -237,6 +237,10 @@ def run_path(c, case, variant, global_repo, allow_fault, allow_replace, fault_ki
         except TextXError as e:
             obs['outcome'] = 'textx-error'
             obs['error'] = str(e)[:100]
+        except OSError as e:
+            # a model file that does not exist: reported by the file system's own exception
+            obs['outcome'] = 'io-error'
+            obs['error'] = type(e).__name__
         except Exception as e:  # noqa
             obs['outcome'] = 'exception'
             obs['error'] = '%s: %s' % (type(e).__name__, e)
